@@ -1,6 +1,7 @@
 import Frp.Model.PluginChain
 import Frp.Model.PluginSite
 import Frp.Lemmas.PluginChain
+import Frp.Gen.PluginSiteFacts
 /-
   C15 — Server plugins gate every operation, fail closed, and see each other's edits.
 
@@ -701,13 +702,20 @@ theorem step_events_gated (E : Enc C) (m : Manager C) (s : Srv) (x : Msg) :
       · simp only [List.mem_singleton] at he
         subst he
         simp [EvGated, Manager.list, Manager.newProxy]
-  | ping slot =>
+  | ping slot key authOk =>
     simp only [step] at he
     split at he
     · cases he
-    · simp only [List.mem_singleton] at he
-      subst he
-      simp [EvGated, Manager.list, Manager.ping]
+    · split at he
+      · rename_i hc
+        simp only [Bool.and_eq_true] at hc
+        simp only [List.mem_singleton] at he
+        subst he
+        simp only [Manager.ping] at hc
+        simp [EvGated, Manager.list, Manager.ping, hc.1]
+      · simp only [List.mem_singleton] at he
+        subst he
+        simp [EvGated, Manager.list, Manager.ping]
   | newWorkConn rid =>
     simp only [step] at he
     split at he
@@ -723,6 +731,8 @@ theorem step_events_gated (E : Enc C) (m : Manager C) (s : Srv) (x : Msg) :
       subst he
       simp [EvGated, Manager.list, Manager.newUserConn]
   | connClosed slot => simp [step] at he
+  | tick d => simp [step] at he
+  | hbCheck slot => simp [step] at he
 
 /-- **every occurrence, in every history**: each event of the trace visited the chain of one of the
     managers of the history and is gated -/
@@ -810,7 +820,7 @@ theorem login_gated_every_kind (E : Enc C) (m : Manager C) (s : Srv) (slot : Nat
           s.add ⟨slot,
             (if E.loginRid (final .login m.loginPlugins (E.login user rid)) = [] then genId
              else E.loginRid (final .login m.loginPlugins (E.login user rid))),
-            E.loginUser (final .login m.loginPlugins (E.login user rid)), []⟩) := by
+            E.loginUser (final .login m.loginPlugins (E.login user rid)), [], s.now⟩) := by
   simp only [step]
   cases hr : (m.login (E.login user rid)).1 with
   | ok c' =>
@@ -849,14 +859,27 @@ theorem add_unique (s : Srv) (c : Ctl) :
     · simp [hr] at h
     · exact h
 
+/-- `lastPing.Store` touches nothing but the heartbeat clock of the Controls of that connection -/
+theorem mem_beat (s : Srv) (slot : Nat) (ctl : Ctl) (h : ctl ∈ (s.beat slot).ctls) :
+    ∃ o ∈ s.ctls, o.slot = ctl.slot ∧ o.rid = ctl.rid ∧ o.user = ctl.user ∧ o.proxies = ctl.proxies ∧
+      (ctl.lastPing = o.lastPing ∨ (ctl.slot = slot ∧ ctl.lastPing = s.now)) := by
+  simp only [Srv.beat, List.mem_map] at h
+  obtain ⟨o, ho, rfl⟩ := h
+  refine ⟨o, ho, ?_⟩
+  split
+  · rename_i hs; exact ⟨rfl, rfl, rfl, rfl, Or.inr ⟨hs, rfl⟩⟩
+  · exact ⟨rfl, rfl, rfl, rfl, Or.inl rfl⟩
+
 /-- **The server state changes only through the gate**: a message changes the session / proxy tables
-    only if it is the end of a connection or one of its visits of a chain proceeded. -/
+    or the heartbeat clock of a session only if one of its visits of a chain proceeded — or it is the end
+    of a connection, the passage of time, or a run of a heartbeat worker (which can only END a session). -/
 theorem effect_only_through_gate (E : Enc C) (m : Manager C) (s : Srv) (x : Msg)
     (h : (step E m s x).1 ≠ s) :
-    (∃ slot, x = .connClosed slot) ∨ ∃ e ∈ (step E m s x).2, e.proceeded = true := by
+    (∃ slot, x = .connClosed slot) ∨ (∃ d, x = .tick d) ∨ (∃ slot, x = .hbCheck slot) ∨
+      ∃ e ∈ (step E m s x).2, e.proceeded = true := by
   cases x with
   | login slot user rid genId authOk =>
-    right
+    right; right; right
     simp only [step] at h ⊢
     split at h
     · split at h
@@ -865,7 +888,7 @@ theorem effect_only_through_gate (E : Enc C) (m : Manager C) (s : Srv) (x : Msg)
       · exact absurd rfl h
     · exact absurd rfl h
   | newProxy slot name regOk =>
-    right
+    right; right; right
     simp only [step] at h ⊢
     split at h
     · exact absurd rfl h
@@ -877,10 +900,20 @@ theorem effect_only_through_gate (E : Enc C) (m : Manager C) (s : Srv) (x : Msg)
           simp [hr, ha]
         · exact absurd rfl h
       · exact absurd rfl h
-  | ping slot => simp only [step] at h; split at h <;> exact absurd rfl h
+  | ping slot key authOk =>
+    right; right; right
+    simp only [step] at h ⊢
+    split at h
+    · exact absurd rfl h
+    · split at h
+      · rename_i hc
+        simp [hc]
+      · exact absurd rfl h
   | newWorkConn rid => simp only [step] at h; split at h <;> exact absurd rfl h
   | newUserConn name => simp only [step] at h; split at h <;> exact absurd rfl h
   | connClosed slot => exact Or.inl ⟨slot, rfl⟩
+  | tick d => exact Or.inr (Or.inl ⟨d, rfl⟩)
+  | hbCheck slot => exact Or.inr (Or.inr (Or.inl ⟨slot, rfl⟩))
 
 /-- a login event that let a session in whose user is `u` -/
 def LetInBy (E : Enc C) (u : Str) (e : Ev C) : Prop :=
@@ -920,10 +953,23 @@ theorem step_sessions_let_in (E : Enc C) (m : Manager C) (s : Srv) (x : Msg) (T 
           split <;> exact this _
         · intro ctl hc; exact keep ctl hc _
       · intro ctl hc; exact keep ctl hc _
-  | ping slot => simp only [step]; split <;> intro ctl hc <;> exact keep ctl hc _
+  | ping slot key authOk =>
+    simp only [step]
+    split
+    · intro ctl hc; exact keep ctl hc _
+    · split
+      · intro ctl hc
+        obtain ⟨o, ho, _, _, hu, _⟩ := mem_beat s slot ctl hc
+        rw [← hu]; exact keep o ho _
+      · intro ctl hc; exact keep ctl hc _
   | newWorkConn rid => simp only [step]; split <;> intro ctl hc <;> exact keep ctl hc _
   | newUserConn name => simp only [step]; split <;> intro ctl hc <;> exact keep ctl hc _
   | connClosed slot =>
+    simp only [step]
+    intro ctl hc
+    exact keep ctl (List.mem_filter.1 hc).1 _
+  | tick d => simp only [step]; intro ctl hc; exact keep ctl hc _
+  | hbCheck slot =>
     simp only [step]
     intro ctl hc
     exact keep ctl (List.mem_filter.1 hc).1 _
@@ -968,7 +1014,7 @@ theorem session_user_is_login_rewrite (E : Enc C) (hist : List (Manager C × Msg
 def OfferedFrom (E : Enc C) (u : Str) (e : Ev C) : Prop :=
   match e.op with
   | .newProxy => ∃ n, e.offered = E.newProxy n u
-  | .ping => e.offered = E.ping u
+  | .ping => ∃ k, e.offered = E.ping k u
   | .newWorkConn => ∃ r, e.offered = E.newWorkConn r u
   | .newUserConn => ∃ n, e.offered = E.newUserConn n u
   | _ => True
@@ -995,13 +1041,13 @@ theorem offered_carries_session_user (E : Enc C) (m : Manager C) (s : Srv) (x : 
       · split at he <;> simp only [List.mem_singleton] at he <;> subst he <;>
           exact ⟨ctl, hm, name, rfl⟩
       · simp only [List.mem_singleton] at he; subst he; exact ⟨ctl, hm, name, rfl⟩
-  | ping slot =>
+  | ping slot key authOk =>
     simp only [step] at he
     split at he
     · cases he
     · rename_i ctl hs
-      simp only [List.mem_singleton] at he; subst he
-      exact ⟨ctl, List.mem_of_find?_eq_some hs, rfl⟩
+      split at he <;> simp only [List.mem_singleton] at he <;> subst he <;>
+        exact ⟨ctl, List.mem_of_find?_eq_some hs, key, rfl⟩
   | newWorkConn rid =>
     simp only [step] at he
     split at he
@@ -1017,6 +1063,8 @@ theorem offered_carries_session_user (E : Enc C) (m : Manager C) (s : Srv) (x : 
       simp only [List.mem_singleton] at he; subst he
       exact ⟨ctl, List.mem_of_find?_eq_some hs, name, rfl⟩
   | connClosed slot => simp [step] at he
+  | tick d => simp [step] at he
+  | hbCheck slot => simp [step] at he
 
 /-- a NewProxy event that registered a proxy under the name `n` -/
 def RegisteredBy (E : Enc C) (n : Str) (e : Ev C) : Prop :=
@@ -1060,10 +1108,23 @@ theorem step_proxies_registered (E : Enc C) (m : Manager C) (s : Srv) (x : Msg) 
           · exact keep o ho n hn _
         · intro ctl hc n hn; exact keep ctl hc n hn _
       · intro ctl hc n hn; exact keep ctl hc n hn _
-  | ping slot => simp only [step]; split <;> intro ctl hc n hn <;> exact keep ctl hc n hn _
+  | ping slot key authOk =>
+    simp only [step]
+    split
+    · intro ctl hc n hn; exact keep ctl hc n hn _
+    · split
+      · intro ctl hc n hn
+        obtain ⟨o, ho, _, _, _, hp, _⟩ := mem_beat s slot ctl hc
+        rw [← hp] at hn; exact keep o ho n hn _
+      · intro ctl hc n hn; exact keep ctl hc n hn _
   | newWorkConn rid => simp only [step]; split <;> intro ctl hc n hn <;> exact keep ctl hc n hn _
   | newUserConn name => simp only [step]; split <;> intro ctl hc n hn <;> exact keep ctl hc n hn _
   | connClosed slot =>
+    simp only [step]
+    intro ctl hc n hn
+    exact keep ctl (List.mem_filter.1 hc).1 n hn _
+  | tick d => simp only [step]; intro ctl hc n hn; exact keep ctl hc n hn _
+  | hbCheck slot =>
     simp only [step]
     intro ctl hc n hn
     exact keep ctl (List.mem_filter.1 hc).1 n hn _
@@ -1102,6 +1163,361 @@ theorem proxy_name_is_newproxy_rewrite (E : Enc C) (hist : List (Manager C × Ms
   have : c' = final .newProxy e.chain e.offered := by
     have h := hg.2.2; rw [hr] at h; injection h
   rw [hu, this]
+
+
+/-! ### The heartbeat: a Ping counts only if it passed the gate
+
+  For a Ping "the server proceeds" means: the heartbeat is counted (`ctl.lastPing.Store(time.Now())`,
+  which is what keeps the session from being closed by its heartbeatWorker) and a Pong without error
+  is sent.  `PluginSite.step` stores only on the branch on which the chain and VerifyPing passed; that
+  this is where the store stands in handlePing is regenerated from the source (`code_ping_store_gated`). -/
+
+/-- the heartbeat clock of `c'` is that of a Control of `s` on the same connection under the same run id -/
+def ClockFrom (s : Srv) (c' : Ctl) : Prop :=
+  ∃ c ∈ s.ctls, c.slot = c'.slot ∧ c.rid = c'.rid ∧ c.lastPing = c'.lastPing
+
+theorem clockFrom_self (s : Srv) (c : Ctl) (h : c ∈ s.ctls) : ClockFrom s c := ⟨c, h, rfl, rfl, rfl⟩
+
+/-- a gated event on which the server went on: everybody consulted, everybody passed -/
+theorem evGated_proceeded (e : Ev C) (h : EvGated e) (hp : e.proceeded = true) :
+    (∀ st ∈ steps e.op e.chain e.offered, stepPasses e.op st = true) ∧
+      e.cons = (steps e.op e.chain e.offered).map seenOf := by
+  obtain ⟨h1, h2, h3⟩ := h
+  have hok := h3 hp
+  cases hr : e.res with
+  | ok c' =>
+    rw [h1] at hr
+    exact ⟨((gated_ok_iff _ _ _ c').1 hr).1, by rw [h2]; exact (proceed_all_consulted _ _ _ c' hr).1⟩
+  | error msg => rw [hr] at hok; cases hok
+  | panic => rw [hr] at hok; cases hok
+
+/-- the message is an accepted Login on connection `slot`, or a Ping on it that VerifyPing let through -/
+def BeatMsg (slot : Nat) (op : Op) (x : Msg) : Prop :=
+  (op = .login ∧ ∃ user rid genId, x = .login slot user rid genId true) ∨
+  (op = .ping ∧ ∃ k, x = .ping slot k true)
+
+theorem step_clock (E : Enc C) (m : Manager C) (s : Srv) (x : Msg) :
+    ∀ c' ∈ (step E m s x).1.ctls, ClockFrom s c' ∨
+      (c'.lastPing = s.now ∧ ∃ e ∈ (step E m s x).2, e.proceeded = true ∧ BeatMsg c'.slot e.op x) := by
+  intro c' hc
+  cases x with
+  | login slot user rid genId authOk =>
+    simp only [step] at hc ⊢
+    split at hc
+    · split at hc
+      · rename_i c1 hr ha
+        simp only [Srv.add, List.mem_append, List.mem_filter, List.mem_singleton] at hc
+        rcases hc with ⟨hc, _⟩ | hc
+        · exact Or.inl (clockFrom_self s c' hc)
+        · subst hc
+          right
+          subst ha
+          simp only [hr, if_true, List.mem_singleton]
+          exact ⟨trivial, _, rfl, rfl, Or.inl ⟨rfl, user, rid, genId, rfl⟩⟩
+      · exact Or.inl (clockFrom_self s c' hc)
+    · exact Or.inl (clockFrom_self s c' hc)
+  | newProxy slot name regOk =>
+    left
+    simp only [step] at hc
+    split at hc
+    · exact clockFrom_self s c' hc
+    · split at hc
+      · split at hc
+        · simp only [Srv.addProxy, List.mem_map] at hc
+          obtain ⟨o, ho, rfl⟩ := hc
+          refine ⟨o, ho, ?_⟩
+          split <;> exact ⟨rfl, rfl, rfl⟩
+        · exact clockFrom_self s c' hc
+      · exact clockFrom_self s c' hc
+  | ping slot key authOk =>
+    simp only [step] at hc ⊢
+    split at hc
+    · exact Or.inl (clockFrom_self s c' hc)
+    · split at hc
+      · rename_i hcnd
+        obtain ⟨o, ho, h1, h2, _, _, h5⟩ := mem_beat s slot c' hc
+        rcases h5 with h5 | ⟨h5, h6⟩
+        · exact Or.inl ⟨o, ho, h1, h2, h5.symm⟩
+        · right
+          refine ⟨h6, ?_⟩
+          have ha : authOk = true := by
+            simp only [Bool.and_eq_true] at hcnd; exact hcnd.2
+          subst ha
+          simp only [hcnd, if_true, List.mem_singleton]
+          exact ⟨_, rfl, rfl, Or.inr ⟨rfl, key, by rw [h5]⟩⟩
+      · exact Or.inl (clockFrom_self s c' hc)
+  | newWorkConn rid =>
+    left; simp only [step] at hc; split at hc <;> exact clockFrom_self s c' hc
+  | newUserConn name =>
+    left; simp only [step] at hc; split at hc <;> exact clockFrom_self s c' hc
+  | connClosed slot =>
+    left; simp only [step] at hc; exact clockFrom_self s c' (List.mem_filter.1 hc).1
+  | tick d => left; simp only [step] at hc; exact clockFrom_self s c' hc
+  | hbCheck slot =>
+    left; simp only [step] at hc; exact clockFrom_self s c' (List.mem_filter.1 hc).1
+
+/-- **A heartbeat is counted only through the gate.**  Whatever the state and the manager of the moment,
+    every Control the server holds after a message either carries the heartbeat clock of a Control that was
+    there before (same connection, same run id) — or its clock was set to the present by this message, and
+    then the message is an accepted Login that created it or a Ping on its connection that VerifyPing let
+    through, and the visit of the Login / Ping chain it made consulted every plugin then registered for that
+    operation, in order, each on the composition of the earlier edits, and every one of them passed.  A
+    Ping that a plugin rejected, or whose plugin could not be reached / answered non-200 / answered garbage,
+    leaves every clock where it was. -/
+theorem lastPing_only_through_gate (E : Enc C) (m : Manager C) (s : Srv) (x : Msg) :
+    ∀ c' ∈ (step E m s x).1.ctls, ClockFrom s c' ∨
+      (c'.lastPing = s.now ∧ ∃ e ∈ (step E m s x).2, e.proceeded = true ∧ BeatMsg c'.slot e.op x ∧
+        e.chain = m.list e.op ∧
+        (∀ st ∈ steps e.op e.chain e.offered, stepPasses e.op st = true) ∧
+        e.cons = (steps e.op e.chain e.offered).map seenOf) := by
+  intro c' hc
+  rcases step_clock E m s x c' hc with h | ⟨hnow, e, he, hp, hb⟩
+  · exact Or.inl h
+  · have hg := step_events_gated E m s x e he
+    have := evGated_proceeded e hg.2 hp
+    exact Or.inr ⟨hnow, e, he, hp, hb, hg.1, this.1, this.2⟩
+
+/-- a refused Ping changes nothing at all (and a Ping on a connection the server does not read makes no
+    visit): the state after it is the state before it -/
+theorem refused_ping_changes_nothing (E : Enc C) (m : Manager C) (s : Srv) (slot : Nat) (key : Str)
+    (authOk : Bool) (h : ∀ e ∈ (step E m s (.ping slot key authOk)).2, e.proceeded = false) :
+    (step E m s (.ping slot key authOk)).1 = s := by
+  simp only [step] at h ⊢
+  split
+  · rfl
+  · split
+    · rename_i hc
+      rename_i ctl hb
+      simp only [hb, hc, if_true, List.mem_singleton] at h
+      have := h _ rfl
+      cases this
+    · rfl
+
+theorem step_hb_now (E : Enc C) (m : Manager C) (s : Srv) (x : Msg) :
+    (step E m s x).1.hb = s.hb ∧ s.now ≤ (step E m s x).1.now := by
+  cases x with
+  | login slot user rid genId authOk =>
+    simp only [step]; split
+    · split <;> simp [Srv.add]
+    · simp
+  | newProxy slot name regOk =>
+    simp only [step]; split
+    · simp
+    · split
+      · split <;> simp [Srv.addProxy]
+      · simp
+  | ping slot key authOk =>
+    simp only [step]; split
+    · simp
+    · split <;> simp [Srv.beat]
+  | newWorkConn rid => simp only [step]; split <;> simp
+  | newUserConn name => simp only [step]; split <;> simp
+  | connClosed slot => simp [step]
+  | tick d => simp [step]
+  | hbCheck slot => simp [step]
+
+theorem run_hb_now (E : Enc C) (hist : List (Manager C × Msg)) (s : Srv) :
+    (run E s hist).1.hb = s.hb ∧ s.now ≤ (run E s hist).1.now := by
+  induction hist generalizing s with
+  | nil => simp [run]
+  | cons mx rest ih =>
+    obtain ⟨m, x⟩ := mx
+    simp only [run]
+    have h1 := step_hb_now E m s x
+    have h2 := ih (step E m s x).1
+    exact ⟨h2.1.trans h1.1, Nat.le_trans h1.2 h2.2⟩
+
+/-- no visit of the history counted a heartbeat or created a session: every Login / Ping visit was refused -/
+def Quiet (T : List (Ev C)) : Prop := ∀ e ∈ T, e.proceeded = true → e.op ≠ .login ∧ e.op ≠ .ping
+
+instance (T : List (Ev C)) : Decidable (Quiet T) := by unfold Quiet; infer_instance
+
+/-- **For every history**: as long as no Ping passes the gate (and nobody logs in), nobody's heartbeat clock
+    moves — however many Pings arrive, whatever else happens (NewProxy, work and user connections, other
+    sessions ending, time passing, heartbeat checks): every Control the server still holds carries the clock
+    it had at the beginning. -/
+theorem quiet_history_keeps_clocks (E : Enc C) (hist : List (Manager C × Msg)) (s : Srv)
+    (hq : Quiet (run E s hist).2) :
+    ∀ c' ∈ (run E s hist).1.ctls, ClockFrom s c' := by
+  induction hist generalizing s with
+  | nil => intro c' hc; exact clockFrom_self s c' (by simpa [run] using hc)
+  | cons mx rest ih =>
+    obtain ⟨m, x⟩ := mx
+    intro c' hc
+    simp only [run] at hc hq
+    have hq1 : Quiet (step E m s x).2 := fun e he => hq e (List.mem_append_left _ he)
+    have hq2 : Quiet (run E (step E m s x).1 rest).2 := fun e he => hq e (List.mem_append_right _ he)
+    obtain ⟨c1, hc1, h1, h2, h3⟩ := ih (step E m s x).1 hq2 c' hc
+    rcases step_clock E m s x c1 hc1 with ⟨c0, hc0, g1, g2, g3⟩ | ⟨_, e, he, hp, hb⟩
+    · exact ⟨c0, hc0, g1.trans h1, g2.trans h2, g3.trans h3⟩
+    · have := hq1 e he hp
+      rcases hb with ⟨hop, _⟩ | ⟨hop, _⟩
+      · exact absurd hop this.1
+      · exact absurd hop this.2
+
+/-- what one run of a heartbeat worker leaves: the sessions of other connections, and of this connection
+    those whose last counted heartbeat is at most the timeout old -/
+theorem hbCheck_spec (E : Enc C) (m : Manager C) (s : Srv) (slot : Nat) (c : Ctl) :
+    c ∈ (step E m s (.hbCheck slot)).1.ctls ↔
+      c ∈ s.ctls ∧ (c.slot = slot → 0 < s.hb → s.now - c.lastPing ≤ s.hb) := by
+  simp only [step, List.mem_filter, Srv.expired, Bool.not_eq_true', Bool.and_eq_false_iff,
+    decide_eq_false_iff_not, Nat.not_lt]
+  constructor
+  · rintro ⟨h1, h2⟩
+    refine ⟨h1, fun hs hb => ?_⟩
+    rcases h2 with h2 | h2 | h2
+    · exact absurd hs h2
+    · omega
+    · exact h2
+  · rintro ⟨h1, h2⟩
+    refine ⟨h1, ?_⟩
+    by_cases hs : c.slot = slot
+    · by_cases hb : 0 < s.hb
+      · exact Or.inr (Or.inr (h2 hs hb))
+      · exact Or.inr (Or.inl (by omega))
+    · exact Or.inl hs
+
+/-- **Refused Pings do not keep a session alive** (all histories).  Take any state in which the sessions on
+    connection `slot` counted their last heartbeat at `t0` or before, and any history after it in which no
+    Ping passed the gate (rejected, plugin unreachable, HTTP error, garbage, VerifyPing failed — any number
+    of them) and nobody logged in.  The first run of the heartbeat worker later than `t0 + timeout` ends
+    the session: the server holds no Control on that connection any more. -/
+theorem unrenewed_session_is_dropped (E : Enc C) (m : Manager C) (hist : List (Manager C × Msg)) (s : Srv)
+    (slot t0 : Nat) (hq : Quiet (run E s hist).2)
+    (h0 : ∀ c ∈ s.ctls, c.slot = slot → c.lastPing ≤ t0)
+    (hhb : 0 < s.hb) (hlate : t0 + s.hb < (run E s hist).1.now) :
+    ∀ c' ∈ (step E m (run E s hist).1 (.hbCheck slot)).1.ctls, c'.slot ≠ slot := by
+  intro c' hc hs
+  obtain ⟨hin, hle⟩ := (hbCheck_spec E m _ slot c').1 hc
+  obtain ⟨c, hcs, h1, _, h3⟩ := quiet_history_keeps_clocks E hist s hq c' hin
+  have hb := (run_hb_now E hist s).1
+  have := hle hs (by rw [hb]; exact hhb)
+  have := h0 c hcs (h1.trans hs)
+  omega
+
+/-- … and a session that is still there after a run of its heartbeat worker counted a heartbeat — i.e. a
+    Ping of it passed the gate, or it logged in — no longer ago than the timeout -/
+theorem alive_after_check_is_recent (E : Enc C) (m : Manager C) (s : Srv) (slot : Nat) (hhb : 0 < s.hb) :
+    ∀ c ∈ (step E m s (.hbCheck slot)).1.ctls, c.slot = slot → s.now - c.lastPing ≤ s.hb :=
+  fun c hc hs => ((hbCheck_spec E m s slot c).1 hc).2 hs hhb
+
+/-- no clock runs ahead of the present (invariant of every history) -/
+theorem clocks_le_now (E : Enc C) (hist : List (Manager C × Msg)) (s : Srv)
+    (h : ∀ c ∈ s.ctls, c.lastPing ≤ s.now) :
+    ∀ c ∈ (run E s hist).1.ctls, c.lastPing ≤ (run E s hist).1.now := by
+  induction hist generalizing s with
+  | nil => simpa [run] using h
+  | cons mx rest ih =>
+    obtain ⟨m, x⟩ := mx
+    simp only [run]
+    apply ih
+    intro c' hc'
+    have hn := (step_hb_now E m s x).2
+    rcases step_clock E m s x c' hc' with ⟨c, hc, _, _, h3⟩ | ⟨h3, _⟩
+    · have := h c hc; omega
+    · omega
+
+/-- executable predicate for one Ping as the peer and the harness observe it: the requests the plugin
+    server received, whether a Pong without error came back (`pong`), whether the session's `lastPing`
+    moved (`counted`).  The server "proceeded" if either happened. -/
+def pingHoldsOn [DecidableEq C] (view : C → C) (R : List (Plugin C)) (c0 : C) (pong counted : Bool)
+    (cons : List (Seen C)) : Bool :=
+  siteHoldsOn view .ping R c0 (pong || counted) cons
+
+theorem pingHoldsOn_sound [DecidableEq C] (view : C → C) (R : List (Plugin C)) (c0 : C)
+    (pong counted : Bool) (cons : List (Seen C)) :
+    pingHoldsOn view R c0 pong counted cons = true ↔
+      cons = (consultedSpec .ping R c0).map (viewSeen view) ∧
+      ((pong = true ∨ counted = true) → ∀ s ∈ steps .ping R c0, stepPasses .ping s = true) := by
+  rw [pingHoldsOn, siteHoldsOn_sound]
+  constructor
+  · intro h
+    exact ⟨h.consulted, fun hp => (h.gate (by rcases hp with hp | hp <;> simp [hp])).1⟩
+  · rintro ⟨h1, h2⟩
+    refine ⟨h1, fun hp => ?_⟩
+    have hall := h2 (by simpa [Bool.or_eq_true] using hp)
+    exact ⟨hall, by rw [h1, consultedSpec_of_all _ _ _ hall]⟩
+
+/-- the model meets it: for every Ping in every state, with "counted" read off the model's own state -/
+theorem model_pingHoldsOn [DecidableEq C] (E : Enc C) (m : Manager C) (s : Srv) (slot : Nat) (key : Str)
+    (authOk : Bool) (view : C → C) :
+    ∀ e ∈ (step E m s (.ping slot key authOk)).2,
+      pingHoldsOn view e.chain e.offered e.proceeded
+        (decide ((step E m s (.ping slot key authOk)).1 ≠ s)) (e.cons.map (viewSeen view)) = true := by
+  intro e he
+  have hg := step_events_gated E m s _ e he
+  have hop : e.op = .ping := by
+    simp only [step] at he
+    split at he
+    · cases he
+    · split at he <;> simp only [List.mem_singleton] at he <;> subst he <;> rfl
+  have hs := (gated_event_spec view e hg.2).2
+  rw [hop] at hs
+  rw [pingHoldsOn_sound]
+  refine ⟨hs.consulted, fun hp => ?_⟩
+  have : e.proceeded = true := by
+    rcases hp with hp | hp
+    · exact hp
+    · cases hpe : e.proceeded with
+      | true => rfl
+      | false =>
+        exfalso
+        have hall : ∀ e' ∈ (step E m s (.ping slot key authOk)).2, e'.proceeded = false := by
+          intro e' he'
+          simp only [step] at he he'
+          split at he
+          · cases he
+          · rename_i ctl hb
+            simp only [hb] at he'
+            split at he
+            · simp only [List.mem_singleton] at he; subst he; cases hpe
+            · rename_i hc
+              simp only [hc] at he'
+              simp only [Bool.false_eq_true, if_false, List.mem_singleton] at he'
+              subst he'; rfl
+        have := refused_ping_changes_nothing E m s slot key authOk hall
+        simp [this] at hp
+  exact (hs.gate this).1
+
+/-- executable predicate for a session observed `since` after its last counted heartbeat (timeout `hb`,
+    the worker's period, the observer's slack): it may be alive only if that is not longer ago than
+    timeout + one period (+ slack) -/
+def expiryHoldsOn (hb period slack since : Nat) (alive : Bool) : Bool :=
+  !alive || decide (since ≤ hb + period + slack)
+
+theorem expiryHoldsOn_sound (hb period slack since : Nat) (alive : Bool) :
+    expiryHoldsOn hb period slack since alive = true ↔ (alive = true → since ≤ hb + period + slack) := by
+  cases alive <;> simp [expiryHoldsOn]
+
+/-- the model meets it with no period and no slack: right after a run of its heartbeat worker -/
+theorem model_expiryHoldsOn (E : Enc C) (m : Manager C) (s : Srv) (slot : Nat) (hhb : 0 < s.hb)
+    (period slack : Nat) :
+    ∀ c ∈ (step E m s (.hbCheck slot)).1.ctls, c.slot = slot →
+      expiryHoldsOn s.hb period slack (s.now - c.lastPing) true = true := by
+  intro c hc hs
+  rw [expiryHoldsOn_sound]
+  intro _
+  have := alive_after_check_is_recent E m s slot hhb c hc hs
+  omega
+
+
+/-! ### tie of the heartbeat part to the source (translate/gen_pluginsitefacts.go, regenerated on every run) -/
+
+/-- **handlePing as it is in the source**: the chain is called, VerifyPing only if the chain passed, the
+    refusal branch (`if err != nil`) sends `Pong{Error}` and RETURNS, and only after it — as a statement of
+    its own, on no other path — comes the one `ctl.lastPing.Store`, then the `Pong{}`.  No other function of
+    the server package writes `lastPing` except NewControl; the heartbeat worker closes the connection when
+    `time.Since(lastPing)` exceeds the configured timeout, checked every second, and does not run at all
+    for a timeout ≤ 0.  This is what `PluginSite.step` (.login / .ping / .hbCheck) mirrors. -/
+theorem code_ping_store_gated :
+    Gen.PluginSiteFacts.handlePing.filter (· ≠ "other") = ["chain", "verify", "refuse", "store", "pong"] ∧
+    Gen.PluginSiteFacts.refuseSendsError = true ∧
+    Gen.PluginSiteFacts.lastPingWriters = ["control.go:NewControl", "control.go:handlePing"] ∧
+    Gen.PluginSiteFacts.hbOffCond = "ctl.serverCfg.Transport.HeartbeatTimeout <= 0" ∧
+    Gen.PluginSiteFacts.hbCloseCond =
+      "time.Since(ctl.lastPing.Load().(time.Time)) > time.Duration(ctl.serverCfg.Transport.HeartbeatTimeout)*time.Second" ∧
+    Gen.PluginSiteFacts.hbPeriod = "time.Second" := by
+  decide +kernel
 
 end site
 
@@ -1209,7 +1625,7 @@ def hist1 : List (Manager Content × Msg) :=
 example : viewT (run encContent {} hist1) =
     [([(1, ⟨[117], []⟩)], true), ([(1, ⟨[117], [9]⟩)], false), ([(1, ⟨[117], [7]⟩)], false),
      ([(1, ⟨[117], [9]⟩)], false)] := by decide +kernel
-example : viewS (run encContent {} (hist1.take 3)) = [⟨0, [9], [117, 43], []⟩] ∧
+example : viewS (run encContent {} (hist1.take 3)) = [⟨0, [9], [117, 43], [], 0⟩] ∧
     viewS (run encContent {} hist1) = [] := by decide +kernel
 -- a re-login on the live run id that the (still rewriting) plugin accepts replaces the session: one Control
 -- under [9], built from the SECOND message as rewritten; the proxy of the replaced session is gone, its name
@@ -1218,7 +1634,7 @@ def hist2 : List (Manager Content × Msg) :=
   [(mRewrite, .login 0 [117] [] [9] true), (mRewrite, .newProxy 0 [112] true),
    (mRewrite, .login 1 [98] [9] [8] true), (mRewrite, .newProxy 0 [112] true),
    (mRewrite, .newProxy 1 [112] true), (mReject, .newProxy 1 [113] true)]
-example : viewS (run encContent {} hist2) = [⟨1, [9], [98, 43], [[112, 43]]⟩] := by decide +kernel
+example : viewS (run encContent {} hist2) = [⟨1, [9], [98, 43], [[112, 43]], 0⟩] := by decide +kernel
 example : viewT (run encContent {} hist2) =
     [([(1, ⟨[117], []⟩)], true), ([(1, ⟨[112], [117, 43]⟩)], true), ([(1, ⟨[98], [9]⟩)], true),
      ([(1, ⟨[112], [98, 43]⟩)], true), ([(1, ⟨[113], [98, 43]⟩)], false)] := by decide +kernel
@@ -1232,6 +1648,41 @@ example : siteHoldsOn id .newProxy mRewrite.newProxyPlugins (encContent.newProxy
     [(1, ⟨[112], [98]⟩)] = false := by decide +kernel
 example : siteHoldsOn id .newProxy mRewrite.newProxyPlugins (encContent.newProxy [112] [98, 43]) true
     [(1, ⟨[112], [98, 43]⟩)] = true := by decide +kernel
+
+-- the heartbeat (timeout 20): two sessions; a Ping plugin that rejects the Pings whose key ends in 1 from
+-- time 5 on.  Session 0 keeps pinging with key [1] (refused from then on), session 1 with key [2] (passes):
+-- the clock of session 0 stays at 5 whatever it sends, and the first run of its heartbeat worker after
+-- 5 + 20 ends it; session 1 stays
+def mPingAll : Manager Content := mgr [Beh.toPlugin .hacc 1 [Op.ping.name]]
+def mPingRej1 : Manager Content := mgr [Beh.toPlugin (.hrejsuf [1] [110]) 1 [Op.ping.name]]
+def hist3 : List (Manager Content × Msg) :=
+  [(mPingAll, .login 0 [117] [] [9] true), (mPingAll, .login 1 [98] [] [8] true), (mPingAll, .tick 5),
+   (mPingAll, .ping 0 [1] true), (mPingAll, .ping 1 [2] true),
+   (mPingRej1, .tick 10), (mPingRej1, .ping 0 [1] true), (mPingRej1, .ping 1 [2] true),
+   (mPingRej1, .hbCheck 0), (mPingRej1, .hbCheck 1),
+   (mPingRej1, .tick 11), (mPingRej1, .ping 0 [1] true), (mPingRej1, .ping 0 [1] true),
+   (mPingRej1, .ping 1 [2] true)]
+example : viewS (run encContent { hb := 20 } hist3) = [⟨0, [9], [117], [], 5⟩, ⟨1, [8], [98], [], 26⟩] := by
+  decide +kernel
+example : viewS (run encContent { hb := 20 } (hist3 ++ [(mPingRej1, .hbCheck 0), (mPingRej1, .hbCheck 1)])) =
+    [⟨1, [8], [98], [], 26⟩] := by decide +kernel
+-- `unrenewed_session_is_dropped` applies to the part of it after time 5 restricted to session 0's Pings
+example : Quiet (run encContent (run encContent { hb := 20 } (hist3.take 5)).1
+    [(mPingRej1, .tick 10), (mPingRej1, .ping 0 [1] true), (mPingRej1, .tick 11), (mPingRej1, .ping 0 [1] true)]).2 := by
+  decide +kernel
+-- VerifyPing failing after the chain passed: not counted either
+example : viewS (run encContent { hb := 20 } [(mPingAll, .login 0 [117] [] [9] true), (mPingAll, .tick 5),
+    (mPingAll, .ping 0 [1] false)]) = [⟨0, [9], [117], [], 0⟩] := by decide +kernel
+-- the executable predicates: a refused Ping that was counted all the same; a session seen alive 40 after
+-- its last counted heartbeat (timeout 20, period 10, slack 3)
+example : pingHoldsOn id mPingRej1.pingPlugins (encContent.ping [1] [117]) false true [(1, ⟨[1], [117]⟩)] = false := by
+  decide +kernel
+example : pingHoldsOn id mPingRej1.pingPlugins (encContent.ping [1] [117]) false false [(1, ⟨[1], [117]⟩)] = true := by
+  decide +kernel
+example : pingHoldsOn id mPingRej1.pingPlugins (encContent.ping [2] [117]) true true [(1, ⟨[2], [117]⟩)] = true := by
+  decide +kernel
+example : expiryHoldsOn 20 10 3 40 true = false ∧ expiryHoldsOn 20 10 3 33 true = true ∧
+    expiryHoldsOn 20 10 3 40 false = true := by decide
 
 end siteExamples
 
